@@ -100,6 +100,11 @@ def run(ctx):
         rep = json.load(open(ctx.replay))["replay"]
         if rep.get("text") is not None:
             faults, valid = [("replay", rep["text"])], []
+    # hand-made invalid texts: undefined names that run into defined ones when joined with a blank
+    base = ("inkfem v1.1\n|nodes|\na -> 0 0 {dx dy rz}\nb -> 100 0 {}\nc -> 200 0 {dx dy}\n|materials|\n'steel s' -> 1 2 3 4 5 6\n|sections|\n'ipe' -> 1 2 3 4 5\n"
+            "|bars|\n1 -> a {dx dy rz} b {dx dy rz} 'steel s' 'ipe'\n2 -> b {dx dy rz} c {dx dy rz} %s\n")
+    for pair in ("'steel' 's ipe'", "'steel s' 'ipe '", "'steel' 'ipe'", "'steel  s' 'ipe'"):
+        faults.append(("collision", base % pair))
     texts = [("valid", t) for t in valid] + faults
     outs = S.run_pipeline(ctx, [{"Text": t, "ParseOnly": True} for k, t in texts])
     rejected = sum(1 for o in outs if o.get("ParsePanic"))
@@ -112,6 +117,8 @@ def run(ctx):
                 concrete += 1
             continue
         fails = count_oracle(text, o)
+        if kind == "collision":
+            fails.append("a bar naming an undefined material / section was accepted")
         if fails:
             if concrete < 3:
                 ctx.violation("part of the input is silently ignored: " + "; ".join(fails), {"text": text, "kind": kind, "failures": fails})
@@ -134,7 +141,12 @@ def run(ctx):
 
     def blocked(path):
         return lambda d: os.makedirs(os.path.join(d, path))
+    def dead_link(path):
+        return lambda d: os.symlink(os.path.join(d, "no_such_dir", path), os.path.join(d, path))
     io_cases = [
+        ("solution path is a dead link", ["solve", "x.inkfem"], {"x.inkfem": good}, dead_link("x.inkfemsol"), {}),
+        ("preprocessed path is a dead link", ["pre", "x.inkfem"], {"x.inkfem": good}, dead_link("x.inkfempre"), {}),
+        ("preprocessed path is a dead link, solve -p", ["solve", "-p", "x.inkfem"], {"x.inkfem": good}, dead_link("x.inkfempre"), {"VERIF_WRITER": "late"}),
         ("wrong extension", ["solve", "x.txt"], {"x.txt": good}, None, {}),
         ("wrong extension for pre", ["pre", "x.inkfempre"], {"x.inkfempre": good}, None, {}),
         ("missing file", ["solve", "nothere.inkfem"], {}, None, {}),
@@ -150,7 +162,7 @@ def run(ctx):
     for what, args, files, prep, env in io_cases:
         r = cli.run(ctx, args, files=files, prepare=prep, env=env, name="c14io")
         cli_runs += 1
-        left = [f for f in r.files if f.endswith(".inkfemsol") and not f.endswith("/")]
+        left = [f for f in r.files if f.endswith(".inkfemsol") and not f.endswith("/") and r.files[f] is not None]   # (a dead link placed there beforehand is not a file left behind)
         if what == "only a header":
             # a definition without bars is valid input for the reader; whatever solve does it must not claim success silently with garbage
             continue
